@@ -60,7 +60,7 @@ Inductive estat :=
 Record eframe := mkE { eb : frame; es : estat }.
 Definition efile := list eframe.
 
-Definition pinned_err_repaired : bool := false.
+Definition pinned_err_repaired : bool := true.
 
 Definition ecsum (fs : list eframe) : N := fold_right (fun x a => csize (eb x) + a) 0 fs.
 
